@@ -557,7 +557,16 @@ Definition html (ls:list str) : str := concat (map (html_node false) (parse_doc 
 
 (* ---- the fragment F: what the model covers ---- *)
 Definition excluded_char (c : N) : bool :=
-  N.eqb c 9 || N.eqb c 92 || N.eqb c 33 || N.eqb c 60 || N.eqb c 91 || N.eqb c 13.
+  N.eqb c 92 || N.eqb c 33 || N.eqb c 60 || N.eqb c 91 || N.eqb c 13.
+(* a tab only between two letters or digits: there it is a character of the text like any other - it is neither indentation nor the
+   white space behind a marker, at the end of a line or next to a delimiter run, which is where CommonMark gives tabs a width *)
+Definition is_alnum_c (c : N) : bool := (((48 <=? c) && (c <=? 57)) || ((65 <=? c) && (c <=? 90)) || ((97 <=? c) && (c <=? 122)))%N.
+Fixpoint tab_ok (prev : option N) (s : str) : bool :=
+  match s with
+  | [] => true
+  | c :: r =>
+    (if N.eqb c 9 then match prev, r with Some p, n :: _ => is_alnum_c p && is_alnum_c n | _, _ => false end else true) && tab_ok (Some c) r
+  end.
 (* a backtick is allowed only in a line that consists of backticks and an info word (a fence line) *)
 Definition backtick_ok (line : str) : bool :=
   negb (existsb (N.eqb bt) line) || (let b := lstrip line in (3 <=? lead bt b) && negb (existsb (N.eqb bt) (dropn (lead bt b) b))).
@@ -571,6 +580,6 @@ Fixpoint amp_ok (s : str) : bool :=
   end.
 Definition fence_line (line : str) : bool := let b := lstrip line in (3 <=? lead bt b) || (3 <=? lead tilde b).
 Definition line_in_F (line : str) : bool :=
-  negb (existsb excluded_char line) && amp_ok line && negb (existsb (N.eqb 38) line && fence_line line) &&
+  negb (existsb excluded_char line) && tab_ok None line && amp_ok line && negb (existsb (N.eqb 38) line && fence_line line) &&
   (negb (existsb (fun c => N.eqb c star || N.eqb c us) line) || forallb (fun c => N.ltb c 128) line).
 Definition in_F (ls : list str) : bool := forallb line_in_F ls.
